@@ -336,6 +336,7 @@ type oresp struct {
 	status, clen int
 	mode         string
 	wire         []byte
+	head         []byte
 }
 
 // split the output into responses the way a parser walks it (head up to the blank line, then the body framing)
@@ -347,6 +348,7 @@ func splitResponses(out []byte) (rs []oresp, garbage bool) {
 			return rs, true
 		}
 		headTxt := string(out[pos : pos+i])
+		headBytes := out[pos : pos+i+4]
 		pos += i + 4
 		lines := strings.Split(headTxt, "\r\n")
 		var r oresp
@@ -403,9 +405,18 @@ func splitResponses(out []byte) (rs []oresp, garbage bool) {
 			pos = len(out)
 		}
 		r.wire = out[start:pos]
+		r.head = headBytes
 		rs = append(rs, r)
 	}
 	return rs, false
+}
+
+func byteList(b []byte) string {
+	xs := make([]string, len(b))
+	for i, x := range b {
+		xs[i] = fmt.Sprint(x)
+	}
+	return hx.List(xs)
 }
 
 func (sc scenario) coq(id int, r *result) string {
@@ -425,8 +436,12 @@ func (sc scenario) coq(id int, r *result) string {
 			st = fmt.Sprintf("Some %d", q.Status)
 		}
 		mode := map[string]string{"cl": "MLen", "chunked": "MChunked", "none": "MNone"}[q.Mode]
-		reqs = append(reqs, fmt.Sprintf("{| hr_id := %d%%nat; hr_close := %s; hr_body_start := %d; hr_body_len := %d%%nat; hr_read := %s; hr_mode := %s; hr_status := %s; hr_writes := %s |}",
-			i, hx.Bool(q.wantsClose()), i%26, q.Body, read, mode, st, hx.List(ws)))
+		xr := "None"
+		if q.RespHdr != "" {
+			xr = "Some " + byteList([]byte(q.RespHdr))
+		}
+		reqs = append(reqs, fmt.Sprintf("{| hr_id := %d%%nat; hr_close := %s; hr_body_start := %d; hr_body_len := %d%%nat; hr_read := %s; hr_mode := %s; hr_status := %s; hr_writes := %s; hr_xresp := %s |}",
+			i, hx.Bool(q.wantsClose()), i%26, q.Body, read, mode, st, hx.List(ws), xr))
 	}
 	var seen, resps []string
 	for i, s := range r.Seen {
@@ -442,7 +457,7 @@ func (sc scenario) coq(id int, r *result) string {
 			}
 			bs = "Some " + hx.List(xs)
 		}
-		resps = append(resps, fmt.Sprintf("{| or_status := %d; or_mode := %s; or_len := %d; or_wire := %s; or_bytes := %s |}", o.status, o.mode, o.clen, digest(o.wire), bs))
+		resps = append(resps, fmt.Sprintf("{| or_status := %d; or_mode := %s; or_len := %d; or_wire := %s; or_bytes := %s; or_head := Some %s |}", o.status, o.mode, o.clen, digest(o.wire), bs, byteList(o.head)))
 	}
 	closedAtEnd := r.Closes > 0 && r.CloseAt == len(r.Out) && r.WritesAfterClose == 0
 	return fmt.Sprintf("{| hc_id := %d%%nat; hc_reqs := %s; hc_obs := {| ho_seen := %s; ho_resps := %s; ho_closed_at_end := %s; ho_garbage := %s |} |}",
